@@ -654,3 +654,32 @@ func (p *prop) fcgiOracle(k *kase, o *obs, srvTrusted, hTrusted bool, peer peerI
 		}
 	}
 }
+
+// incOracle: the sub-request templates' httpInclude makes for an UNTRUSTED peer's request must not
+// attribute an address taken from that peer's headers (two-run relation over the forwarding headers).
+func (p *prop) incOracle(k *kase, impl string, out *core.Outcome) {
+	out.Tags = append(out.Tags, "op:inc")
+	sp, _ := parsePrefixes(k.srvT)
+	peer := refPeer(k.remote)
+	srvTrusted := !k.srvTNil && peer.addrOK && anyContains(sp, peer.addr)
+	if srvTrusted || !peer.addrOK {
+		out.Tags = append(out.Tags, "inc:trusted-or-unusable-peer")
+		return
+	}
+	if lo, err := netip.ParseAddr("127.0.0.1"); err == nil && !k.srvTNil && anyContains(sp, lo) {
+		out.Tags = append(out.Tags, "inc:untrusted-peer,loopback-trusted")
+	}
+	for vi, hv := range variants(k) {
+		impl2, _, err := p.serve(k, hv)
+		if err != nil {
+			continue
+		}
+		if impl2 != impl {
+			a, _ := core.UnHex(strings.TrimPrefix(strings.Fields(impl)[0], "inner="))
+			b, _ := core.UnHex(strings.TrimPrefix(strings.Fields(impl2)[0], "inner="))
+			out.Failures = append(out.Failures, core.Failure{Class: "httpinclude-subrequest-honours-untrusted-forwarding-headers",
+				What: fmt.Sprintf("untrusted peer %q: the included sub-request is attributed %q, with variant %d of the forwarding headers %q", k.remote, a, vi, b)})
+			return
+		}
+	}
+}
